@@ -1,6 +1,7 @@
 package lisp
 
 import (
+	"time"
 	"errors"
 	"io/fs"
 	"path/filepath"
@@ -79,6 +80,81 @@ func vStub_os_ReadFile(name string) ([]byte, error) {
 	return []byte("DATA"), nil
 }
 
+// os.Stat / os.Lstat stubs over the SAME link model (the unchanged library calls neither; a change
+// that consults them must see a file system consistent with the resolver's answers): Stat follows
+// links -- it answers for the resolver's real path of the name, a regular file or a directory
+// (solver-chosen, memoised per real path); Lstat does not follow the LAST component -- it may say
+// "symbolic link" (solver-chosen, memoised) only for a name whose real path differs from it.
+type verifFI struct {
+	name string
+	mode fs.FileMode
+}
+
+func (f verifFI) Name() string       { return f.name }
+func (f verifFI) Size() int64        { return 4 }
+func (f verifFI) Mode() fs.FileMode  { return f.mode }
+func (f verifFI) ModTime() time.Time { return time.Time{} }
+func (f verifFI) IsDir() bool        { return f.mode.IsDir() }
+func (f verifFI) Sys() any           { return nil }
+
+type verifKind struct {
+	path string
+	dir  bool
+}
+
+var verifKinds []verifKind
+var verifLastLink []verifKind
+
+func verifIsDir(real string) bool {
+	for _, k := range verifKinds {
+		if k.path == real {
+			return k.dir
+		}
+	}
+	d := vndBool("node.dir")
+	verifKinds = append(verifKinds, verifKind{real, d})
+	return d
+}
+
+func vStub_os_Stat(name string) (fs.FileInfo, error) {
+	real, err := vStub_path_filepath_EvalSymlinks(filepath.Clean(name))
+	if err != nil {
+		return nil, &fs.PathError{Op: "stat", Path: name, Err: fs.ErrNotExist}
+	}
+	if verifIsDir(real) {
+		return verifFI{filepath.Base(name), fs.ModeDir | 0o755}, nil
+	}
+	return verifFI{filepath.Base(name), 0o644}, nil
+}
+
+func vStub_os_Lstat(name string) (fs.FileInfo, error) {
+	clean := filepath.Clean(name)
+	real, err := vStub_path_filepath_EvalSymlinks(clean)
+	if err != nil {
+		return nil, &fs.PathError{Op: "lstat", Path: name, Err: fs.ErrNotExist}
+	}
+	if real != clean {
+		last := false
+		found := false
+		for _, k := range verifLastLink {
+			if k.path == clean {
+				last, found = k.dir, true
+			}
+		}
+		if !found {
+			last = vndBool("node.lastlink")
+			verifLastLink = append(verifLastLink, verifKind{clean, last})
+		}
+		if last {
+			return verifFI{filepath.Base(name), fs.ModeSymlink | 0o777}, nil
+		}
+	}
+	if verifIsDir(real) {
+		return verifFI{filepath.Base(name), fs.ModeDir | 0o755}, nil
+	}
+	return verifFI{filepath.Base(name), 0o644}, nil
+}
+
 func verifInside(p, r string) bool {
 	if p == r {
 		return true
@@ -90,7 +166,7 @@ func verifInside(p, r string) bool {
 }
 
 func VerifC20_KRoot() {
-	verifLinks, verifReads = nil, nil
+	verifLinks, verifReads, verifKinds, verifLastLink = nil, nil, nil, nil
 	verifRLen = vParam("rlen", 3)
 	roots := []string{"/a", "a", "/", "/a/", "./a", "/a/b"}
 	root := roots[vndChoice("root", len(roots))]
